@@ -271,7 +271,7 @@ package shaping
 //@   mode bv
 //@   ensures [valid] r.valid && r.runIdx == runIdx
 //@   ensures [reuses-only-same-run] implies(old(r.valid) && old(r.runIdx) == runIdx, sameslice(r.mapping, old(r.mapping)))
-//@   modifies unspecified
+//@   modifies r.mapping; r.runIdx; r.valid; all(glyphIndex)
 //
 // newBreaker initialises the segmenter for the paragraph (C06 covers the segmenter itself).
 //@ trusted newBreaker
@@ -285,3 +285,96 @@ package shaping
 //@   ensures [truncating] l.truncating == (config.TruncateAfterLines > 0)
 //@   ensures [scratch] len(l.scratch.paragraph) == 0 && len(l.scratch.alt) == 0 && len(l.scratch.best) == 0 && l.scratch.lineUsed == 0 && l.scratch.altAdvance == 0 && len(l.scratch.line) == 0
 //@   modifies unspecified
+//
+// ---------------------------------------------------------------------------------------------
+// Property C03: break candidates. A word candidate ends right before a UAX #14 boundary; it is "required" exactly
+// when that boundary is mandatory and it is not the end of the text ("a mandatory break always ends its line").
+//@ spec wsOK(b *breaker) bool = b.wordSegmenter != nil && b.wordSegmenter.attributeIterator.src != nil && len(b.wordSegmenter.attributeIterator.src.attributes) == len(b.wordSegmenter.attributeIterator.src.text)+1 && 0 <= b.wordSegmenter.attributeIterator.pos && b.wordSegmenter.attributeIterator.pos <= 1<<40 && 0 <= b.totalRunes && b.totalRunes <= 1<<40
+//@ func breaker.nextWordRaw C03
+//@   mode int
+//@   requires wsOK(b)
+//@   ensures [at-line-boundary] implies(ok, option.breakAtRune == b.wordSegmenter.attributeIterator.pos-1 && 0 <= option.breakAtRune &&
+//@     | b.wordSegmenter.attributeIterator.src.attributes[option.breakAtRune+1]&b.wordSegmenter.attributeIterator.flag != 0)
+//@   ensures [required-iff-mandatory-before-end] implies(ok, option.required == (b.wordSegmenter.attributeIterator.src.attributes[option.breakAtRune+1]&2 != 0 && option.breakAtRune != b.totalRunes-1))
+//@   ensures [no-candidate] implies(!ok, option.breakAtRune == 0 && !option.required)
+//@   modifies b.wordSegmenter.attributeIterator.pos; b.wordSegmenter.attributeIterator.lastBreak
+//
+//@ spec gsOK(b *breaker) bool = b.graphemeSegmenter != nil && b.graphemeSegmenter.attributeIterator.src != nil && len(b.graphemeSegmenter.attributeIterator.src.attributes) == len(b.graphemeSegmenter.attributeIterator.src.text)+1 && 0 <= b.graphemeSegmenter.attributeIterator.pos && b.graphemeSegmenter.attributeIterator.pos <= 1<<40
+//@ func breaker.nextGraphemeRaw C03
+//@   mode int
+//@   requires gsOK(b)
+//@   ensures [at-grapheme-boundary] implies(ok, option.breakAtRune == b.graphemeSegmenter.attributeIterator.pos-1 && 0 <= option.breakAtRune && !option.required &&
+//@     | b.graphemeSegmenter.attributeIterator.src.attributes[option.breakAtRune+1]&b.graphemeSegmenter.attributeIterator.flag != 0)
+//@   modifies b.graphemeSegmenter.attributeIterator.pos; b.graphemeSegmenter.attributeIterator.lastBreak
+//
+// ---------------------------------------------------------------------------------------------
+// Property C04: widths. ceil26_6 is fixed.Int26_6.Ceil as documented ("the least integer value greater than or equal to x").
+//@ spec ceil26_6(x fixed.Int26_6) int = int((x + 0x3f) >> 6)
+//@ trusted RunIterator.Peek
+//@   params it
+//@   modifies nothing
+//@ trusted RunIterator.Save
+//@   params it
+//@   modifies nothing
+//@ trusted RunIterator.Restore
+//@   params it
+//@   modifies nothing
+//@ trusted breaker.nextWordBreak
+//@   modifies *l; all(segmenter.LineIterator); all(segmenter.GraphemeIterator)
+//@ trusted breaker.nextGraphemeBreak
+//@   modifies *l; all(segmenter.LineIterator); all(segmenter.GraphemeIterator)
+//@ trusted wrapBuffer.markCandidateBest
+//@   modifies w.best; w.bestInLine; w.lineExhausted; all(Output)
+//
+// wrapNextLine, break policies (property C03): breaking inside a UAX #14 segment (the grapheme loop) is attempted only
+// if the policy allows it: never with Never; with WhenNecessary only when the segment cannot fit on a line by itself
+// (cannotFit), when the line is being truncated, or to fill the last permitted line before truncation.
+//@ func LineWrapper.wrapNextLine C03
+//@   mode bv
+//@   requires l.breaker != nil
+//@   assert_at call nextGraphemeBreak#1 : [grapheme-breaking-justified] l.config.BreakPolicy != Never && (result == truncated || result == newLineBeforeBreak || result == cannotFit) &&
+//@     | implies(result == newLineBeforeBreak && l.config.BreakPolicy == WhenNecessary, config.truncating)
+//@   loop 2 invariant [grapheme-breaking-justified] l.config.BreakPolicy != Never && (result == truncated || result == newLineBeforeBreak || result == cannotFit) &&
+//@     | implies(result == newLineBeforeBreak && l.config.BreakPolicy == WhenNecessary, config.truncating)
+//@   modifies unspecified
+//@ trusted LineWrapper.postProcessLine
+//@   modifies unspecified
+//
+// WrapNextLine: the per-line limits handed to the line builder: the line may use maxWidth, and when this is the last
+// permitted line it must leave room for the truncator: maxWidth - ceil(truncator advance).
+//@ func LineWrapper.WrapNextLine C04
+//@   mode bv
+//@   assert_at call wrapNextLine#1 : [limits] config.maxWidth == maxWidth && config.truncating == (l.config.TruncateAfterLines == 1) && config.truncatedMaxWidth == maxWidth - ceil26_6(l.config.Truncator.Advance)
+//@   modifies unspecified
+//
+// advanceSpaceAware, from its documentation: the advance without the trailing (in paragraph direction) glyph's advance
+// when that glyph is white space (zero ink extent on the axis), else without its end letter spacing; unchanged when
+// the run's direction differs from the paragraph's or the run is empty.
+//@ spec lastGlyphIdx(o Output) int = ite(bool(o.Direction.Progression()), 0, len(o.Glyphs)-1)
+//@ spec trailingAdj(o Output) fixed.Int26_6 = ite(o.Direction.IsVertical(), ite(o.Glyphs[lastGlyphIdx(o)].Height == 0, o.Glyphs[lastGlyphIdx(o)].YAdvance, o.Glyphs[lastGlyphIdx(o)].endLetterSpacing), ite(o.Glyphs[lastGlyphIdx(o)].Width == 0, o.Glyphs[lastGlyphIdx(o)].XAdvance, o.Glyphs[lastGlyphIdx(o)].endLetterSpacing))
+//@ spec spaceAware(o Output, p di.Direction) fixed.Int26_6 = ite(len(o.Glyphs) == 0 || p != o.Direction, o.Advance, o.Advance - trailingAdj(o))
+//@ func Output.advanceSpaceAware C04
+//@   mode bv
+//@   ensures [as-documented] result == spaceAware(*o, paragraphDir)
+//@   modifies nothing
+//
+//@ trusted LineWrapper.fillUntil
+//@   modifies l.scratch.alt; l.scratch.altAdvance; all(Output)
+//@ trusted mapRunesToClusterIndices3
+//@   modifies buf[0:cap(buf)]
+//
+// processBreakOption: the fit classification. w = ceil(space-aware advance of the candidate run in PARAGRAPH direction
+// + advance of the runs already on the candidate line).
+//@ spec lineWidth(l *LineWrapper, cand Output) int = ceil26_6(spaceAware(cand, l.config.Direction) + l.scratch.altAdvance)
+//@ func LineWrapper.processBreakOption C04 C03
+//@   mode bv
+//@   requires l.breaker != nil
+//@   ensures [enum] result0 <= cannotFit
+//@   ensures [stale-option-invalid] implies(option.breakAtRune < old(l.lineStartRune), result0 == breakInvalid)
+//@   ensures [fits] implies(result0 == fits, lineWidth(l, result1) <= config.maxWidth && !(config.truncating && lineWidth(l, result1) > config.truncatedMaxWidth))
+//@   ensures [cannot-fit] implies(result0 == cannotFit, lineWidth(l, result1) > config.maxWidth && len(l.scratch.best) == 0)
+//@   ensures [new-line-before] implies(result0 == newLineBeforeBreak, lineWidth(l, result1) > config.maxWidth && len(l.scratch.best) > 0)
+//@   ensures [truncation] implies(result0 == endLine || result0 == truncated, config.truncating && lineWidth(l, result1) <= config.maxWidth && lineWidth(l, result1) > config.truncatedMaxWidth)
+//@   ensures [end-line-only-at-text-end] implies(result0 == endLine, result1.Runes.Count+result1.Runes.Offset == l.breaker.totalRunes && !l.config.TextContinues)
+//@   ensures [truncated-otherwise] implies(result0 == truncated, !(result1.Runes.Count+result1.Runes.Offset == l.breaker.totalRunes && !l.config.TextContinues))
+//@   modifies l.scratch.alt; l.scratch.altAdvance; l.mapper; all(glyphIndex); all(Output)
